@@ -16,6 +16,9 @@ type srvCase struct {
 	// PerDir: message seqnos count per direction from 1, as real clients number them (the two directions of a session
 	// then carry equal numbers); otherwise one counter is shared by all senders and every number is distinct
 	PerDir bool `json:"per_dir,omitempty"`
+	// Churn (C22): before the operations peer 0 attaches and peer 1 attaches and detaches that many times, so that the
+	// session's epoch is in the hundreds (multi-byte on the wire) when the history starts
+	Churn int `json:"churn,omitempty"`
 }
 
 // ---- C20 ----
@@ -255,7 +258,11 @@ func genC22(t *rapid.T) srvCase {
 		p := rapid.IntRange(0, 1).Draw(t, "lp")
 		ops = append([]sop{{Op: "listen", P: p, Q: 1 - p}, {Op: "attach", P: p, Q: 1 - p}, {Op: "unlisten", P: p, Q: 1 - p}, {Op: "attach", P: 1 - p, Q: p}, {Op: "send", P: p, Q: 1 - p, Kind: "honest", Epoch: "current"}}, ops...)
 	}
-	return srvCase{Ops: ops}
+	c := srvCase{Ops: ops}
+	if rapid.IntRange(0, 7).Draw(t, "churn") == 0 {
+		c.Churn = rapid.SampledFrom([]int{66, 70, 130}).Draw(t, "nchurn")
+	}
+	return c
 }
 
 // c22Invariant checks the announcement invariant at quiescence (no gates active).
@@ -312,6 +319,19 @@ func checkC22(c srvCase) (o vstat.Outcome) {
 		o.NonTrivial = t.classes["usurp-session"] || t.classes["second-peer-attaches"] || t.classes["held-relay-loop"]
 		t.teardown()
 	}()
+	if c.Churn > 0 && c.Churn <= 200 {
+		t.classes["long-lived-session"] = true
+		t.apply(sop{Op: "attach", P: 0, Q: 1})
+		for i := 0; i < c.Churn; i++ {
+			t.apply(sop{Op: "attach", P: 1, Q: 0})
+			t.apply(sop{Op: "detach", P: 1, Q: 0})
+		}
+		t.hist = []string{fmt.Sprintf("attach(0->1) %dx[attach(1->0) detach(1->0)]", c.Churn)}
+		if v := c22Invariant(t); v != nil {
+			o.V = v
+			return
+		}
+	}
 	for _, op := range c.Ops {
 		if !t.apply(op) {
 			continue
